@@ -49,7 +49,7 @@ V("C04", "trapezoid_drop_f0", "violation", (DAEINT, "return Tf * (x - x0) - h * 
 V("C04", "backeuler_jac_half", "violation", (DAEINT, "return sparse([[tds.Teye - tds.h * dae.fx, gxs],\n                       [-tds.h * dae.fy, gys]], 'd')", "return sparse([[tds.Teye - tds.h * dae.fx, gxs],\n                       [-tds.h * 0.5 * dae.fy, gys]], 'd')"), rule="C04.rule")
 V("C04", "no_restore_f", "violation", (DAEINT, "            dae.f[:] = np.array(tds.f0)\n", ""), rule="C04.restore")
 V("C04", "accept_loose_tol", "violation", (DAEINT, "if abs(mis) <= tds.config.tol:", "if abs(mis) <= 100 * tds.config.tol:"), rule="C04.accept")
-V("C04", "no_tf_clip", "violation", (TDS, "        self.h = max(min(self.h, config.tf - system.dae.t), 0)\n", "        self.h = max(self.h, 0)\n"), rule="C04.stepsize")
+V("C04", "no_tf_clip", "violation", (TDS, "            self.h = max(config.tf - system.dae.t, 0)\n", "            self.h = max(self.h, 0)\n"), rule="C04.stepsize")
 V("C04", "fixt_growth_unclipped", "violation", (TDS, "                if config.fixt:\n                    self.deltat = min(config.tstep, self.deltat)\n", ""), rule="C04.stepsize")
 V("C04", "reject_no_rewind", "violation", (TDS, "                dae.t -= self.h\n                self.calc_h()", "                self.calc_h()"), rule="C04.restore")
 V("C04", "scale_mismatch", "violation", (DAEINT, "tds.qg[dae.n:] = tds.config.g_scale * tds.h * dae.g", "tds.qg[dae.n:] = tds.config.g_scale * dae.g"), rule="C04.scale")
@@ -207,7 +207,7 @@ V("C13", "benign_mpc_local_rename", "silent", (MPCF, "        vang = data[8] * d
 # ---------------- C14
 SNAP = "andes/utils/snapshot.py"
 V("C14", "run_always_inits", "violation", (TDS, "        if system.dae.t < 0:\n            self.init()\n        else:  # resume simulation\n            self.init_resume()", "        if system.dae.t <= 0:\n            self.init()\n        else:  # resume simulation\n            self.init_resume()"), rule="C14.resume")
-V("C14", "resume_rebuilds_schedule", "violation", (TDS, "        self.calc_h(resume=True)\n        dae.t += self.h", "        system.store_switch_times(system.exist.tds)\n        self.calc_h(resume=True)\n        dae.t += self.h"), rule="C14.resume")
+V("C14", "resume_rebuilds_schedule", "violation", (TDS, "        self.calc_h(resume=True)\n        self._advance_time()", "        system.store_switch_times(system.exist.tds)\n        self.calc_h(resume=True)\n        self._advance_time()"), rule="C14.resume")
 V("C14", "pbar_kept", "violation", (TDS, "        self.pbar.close()\n        self.pbar = None\n", "        self.pbar.close()\n"), rule="C14.resume")
 V("C14", "snapshot_no_strip", "violation", (SNAP, "    system.remove_pycapsule()\n", ""), rule="C14.snapshot")
 V("C14", "snapshot_fix_before_load", "violation", (SNAP, "    # point the \"view arrays\" to the correct memory\n    fix_view_arrays(system)\n", ""), rule="C14.snapshot")
@@ -256,7 +256,7 @@ V("C20", "rc_parser_shared", "violation", (SYSTEM, "    conf = configparser.Conf
 V("C20", "routine_defaults_in_ctor", "violation", ("andes/routines/base.py", "        self.config = Config(self.class_name)", "        self.config = Config(self.class_name, OrderedDict((('sparselib', 'klu'), ('linsolve', 0))))"), rule="C20.typestate")
 V("C20", "benign_as_dict_positional_refresh", "silent", (COMMONF, "        for key, val in self.as_dict(refresh=True).items():", "        for key, val in self.as_dict(True).items():"))
 V("C14", "load_clears_equations", "violation", (SYSTEM, "    system.set_var_arrays(system.models)\n\n    for model in system.models.values():\n        model.get_inputs(refresh=True)", "    system.set_var_arrays(system.models)\n    system.e_clear(system.models)\n\n    for model in system.models.values():\n        model.get_inputs(refresh=True)"), rule="C14.effects")
-V("C14", "resume_reloads_pflow_solution", "violation", (TDS, "        self.calc_h(resume=True)\n        dae.t += self.h", "        self.calc_h(resume=True)\n        dae.y[:len(system.PFlow.y_sol)] = system.PFlow.y_sol\n        dae.t += self.h"), rule="C14.effects")
+V("C14", "resume_reloads_pflow_solution", "violation", (TDS, "        self.calc_h(resume=True)\n        self._advance_time()", "        self.calc_h(resume=True)\n        dae.y[:len(system.PFlow.y_sol)] = system.PFlow.y_sol\n        self._advance_time()"), rule="C14.effects")
 V("C15", "switch_before_store", "violation", (TDS, "            if step_status:\n                if config.save_every != 0:", "            if step_status:\n                self.do_switch()\n                if config.save_every != 0:"), rule="C15.flow")
 V("C15", "benign_log_before_store", "silent", (TDS, "            if step_status:\n                if config.save_every != 0:", "            if step_status:\n                logger.debug('accepted step at t=%s', dae.t)\n                if config.save_every != 0:"))
 V("C11", "tconst_first_state_only", "violation", (MODEL, "                        self.system.TDS.Teye[uid_int[ii], uid_int[ii]] = instance.v[ii]\n", "                        self.system.TDS.Teye[uid_int[ii], uid_int[ii]] = instance.v[ii]\n                    break\n"), rule="C11.tconst")
@@ -290,3 +290,7 @@ V("C14", "dae_reset_keeps_rhs_counters", "violation", (DAEF, "        self.p = 0
 V("C14", "dae_reset_time_zero", "violation", (DAEF, "        self.set_t(-1.0)\n        self.m = 0", "        self.set_t(0.0)\n        self.m = 0"), rule="C14.reset")
 V("C11", "dae_reset_time_zero", "violation", (DAEF, "        self.set_t(-1.0)\n        self.m = 0", "        self.set_t(0.0)\n        self.m = 0"), rule="C11.reset")
 V("C14", "benign_dae_reset_tuple_zero", "silent", (DAEF, "        self.m = 0\n        self.n = 0\n        self.o = 0\n        self.p = 0\n        self.q = 0\n", "        self.m, self.n, self.o, self.p, self.q = 0, 0, 0, 0, 0\n"))
+V("C06", "clock_recomputed_not_copied", "violation", (TDS, "        if self._t_next is not None:\n            dae.t[...] = self._t_next\n        else:\n            dae.t += self.h\n", "        dae.t += self.h\n"), rule="C06.exact")
+V("C06", "cut_time_not_recorded", "violation", (TDS, "                self.h = system.switch_times[self._switch_idx] - system.dae.t\n                self._t_next = system.switch_times[self._switch_idx]\n", "                self.h = system.switch_times[self._switch_idx] - system.dae.t\n"), rule="C06.exact")
+V("C04", "clip_tf_dropped", "violation", (TDS, "        if self.h >= config.tf - system.dae.t:\n            self.h = max(config.tf - system.dae.t, 0)\n", "        if self.h >= config.tf - system.dae.t + 1:\n            self.h = max(config.tf - system.dae.t, 0)\n"), rule="C04.stepsize")
+V("C04", "benign_clip_tf_minmax_form", "silent", (TDS, "        if self.h >= config.tf - system.dae.t:\n            self.h = max(config.tf - system.dae.t, 0)\n            if self.h > 0:\n                self._t_next = config.tf\n", "        if self.h >= config.tf - system.dae.t:\n            self.h = max(min(self.h, config.tf - system.dae.t), 0)\n            if self.h > 0:\n                self._t_next = config.tf\n"))
